@@ -72,6 +72,8 @@ inductive Stmt
   | choice (a b : Stmt)
   /-- `for { body }`: left only by `brk` / `ret` (conditions are inside the body) -/
   | loop (site : Site) (body : Stmt)
+  /-- `switch` / `select`: a `break` inside leaves the block, `continue` passes through -/
+  | block (body : Stmt)
   | ret | brk | cont
   /-- any other partial operation (index, slice, `make`, `panic`, `Must…`, send on a channel
   that may be closed, assertion the translator does not understand): may fault -/
@@ -124,6 +126,10 @@ def exec : Nat → Stmt → CState → Out
     match exec n body st with
     | .norm st' => exec n (.loop site body) st'
     | .cont st' => exec n (.loop site body) st'
+    | .brk st' => .norm st'
+    | o => o
+  | n + 1, .block body, st =>
+    match exec n body st with
     | .brk st' => .norm st'
     | o => o
   | _ + 1, .ret, _ => .ret
@@ -220,14 +226,29 @@ def check : Stmt → AStore → Res × List Site
     let (r, e) := check body inv
     let ok := leq a inv && leqO r.norm inv && leqO r.cont inv
     (⟨r.brk, none, none⟩, if ok then e else e ++ [site])
+  | .block body, a =>
+    let (r, e) := check body a
+    (⟨joinO r.norm r.brk, none, r.cont⟩, e)
   | .ret, _ => (Res.bot, [])
   | .brk, a => (⟨none, some a, none⟩, [])
   | .cont, a => (⟨none, none, some a⟩, [])
   | .hazard site, a => (⟨some a, none, none⟩, [site])
 
+/-- number of variables of a skeleton (one more than the largest variable mentioned) -/
+def nvars : Stmt → Nat
+  | .seq a b | .choice a b => max (nvars a) (nvars b)
+  | .havoc x _ | .require x _ _ => x + 1
+  | .copy x y => max (x + 1) (y + 1)
+  | .ifKind x _ t e => max (x + 1) (max (nvars t) (nvars e))
+  | .loop _ b | .block b => nvars b
+  | _ => 0
+
+/-- the abstract store "every variable may have any kind" -/
+def top (n : Nat) : AStore := List.replicate n allKinds
+
 /-- sites of a skeleton that the checker cannot prove panic-free, starting from "every
 variable may have any kind" -/
-def flagged (s : Stmt) : List Site := (check s []).2
+def flagged (s : Stmt) : List Site := (check s (top (nvars s))).2
 
 def safe (s : Stmt) : Bool := (flagged s).isEmpty
 
@@ -235,7 +256,7 @@ def safe (s : Stmt) : Bool := (flagged s).isEmpty
 
 Prefix notation, tokens separated by `.`; kind sets as bit masks:
 
-    k | s A B | h x mask | c x y | r x mask site | i x mask T E | o A B | l site B | R | B | C | z site
+    k | s A B | h x mask | c x y | r x mask site | i x mask T E | o A B | l site B | b B | R | B | C | z site
 -/
 
 def encode : Stmt → List String
@@ -247,6 +268,7 @@ def encode : Stmt → List String
   | .ifKind x ks t e => ["i", toString x, toString (maskOfKs ks)] ++ encode t ++ encode e
   | .choice a b => "o" :: encode a ++ encode b
   | .loop site b => ["l", toString site] ++ encode b
+  | .block b => "b" :: encode b
   | .ret => ["R"] | .brk => ["B"] | .cont => ["C"]
   | .hazard site => ["z", toString site]
 
@@ -286,6 +308,9 @@ def decodeAux : Nat → List String → Option (Stmt × List String)
       let site ← site.toNat?
       let (b, r1) ← decodeAux n rest
       pure (.loop site b, r1)
+    | "b", rest => do
+      let (b, r1) ← decodeAux n rest
+      pure (.block b, r1)
     | "z", site :: rest => do
       let site ← site.toNat?
       pure (.hazard site, rest)
